@@ -12,7 +12,8 @@ Operational       - the documented protocol (C16's words: detach all former chil
                     hook log (C16) and the exact outcome of the listed C03 findings.
 """
 
-NON = "NON"
+NON = "NON"  # an object that is not a tree node
+NONE = "NONE"  # the value None used as a child
 NONITER = "NONITER"
 
 PRE_HOOKS = ("_pre_detach", "_pre_attach", "_pre_detach_children", "_pre_attach_children")
@@ -56,7 +57,7 @@ def refusal(parent, children, op, family):
             return "TypeError"
         seen = []
         for x in xs:
-            if x == NON:
+            if x == NON or x == NONE:
                 return "TreeError" if family == "mixin" else "UNSPECIFIED"
             if x in seen:
                 return "TreeError"
@@ -178,7 +179,7 @@ class Operational(object):
         xs = tuple(xs)
         seen = []
         for x in xs:
-            if x == NON:
+            if x == NON or x == NONE:
                 self._refuse("TreeError" if self.family == "mixin" else "UNSPECIFIED")
             if x in seen:
                 self._refuse("TreeError")
